@@ -1467,6 +1467,20 @@ func (self *LockDB) GetOrNewLockManager(command *protocol.LockCommand) *LockMana
 		return lockManager
 	}
 
+	atomic.AddUint32(&fastValue.count, 1)
+	if atomic.LoadUint32(&fastValue.lock) == 2 {
+		fastLockManager := fastValue.manager
+		if fastLockManager != nil && fastLockManager.lockKey == command.LockKey && atomic.LoadUint32(&fastLockManager.refCount) != 0xffffffff {
+			atomic.AddUint32(&fastValue.count, 0xffffffff)
+			self.mGlock.Unlock()
+			return fastLockManager
+		}
+	} else {
+		atomic.AddUint32(&fastValue.count, 0xffffffff)
+		self.mGlock.Unlock()
+		return self.GetOrNewLockManager(command)
+	}
+
 	freeLockManagerTail := atomic.AddUint32(&self.freeLockManagerTail, 1) % self.maxFreeLockManagerCount
 	lockManager := self.freeLockManagers[freeLockManagerTail]
 	for lockManager == nil {
@@ -1478,7 +1492,6 @@ func (self *LockDB) GetOrNewLockManager(command *protocol.LockCommand) *LockMana
 	lockManager.fastKeyValue = fastValue
 	atomic.AddUint32(&lockManager.refCount, 1)
 	self.locks[command.LockKey] = lockManager
-	atomic.AddUint32(&fastValue.count, 1)
 	self.mGlock.Unlock()
 	atomic.AddUint32(&lockManager.state.KeyCount, 1)
 	atomic.AddUint64(&lockManager.state.SlowKeyCount, 1)
